@@ -8,12 +8,15 @@ import (
 
 	"verif/harness/internal/arith"
 	"verif/harness/internal/common"
+	"verif/harness/internal/kv"
 )
 
 func family(name string, profile string) common.Family {
 	switch name {
 	case "arith":
 		return arith.Fam{}
+	case "kv":
+		return kv.New(profile)
 	}
 	fmt.Fprintln(os.Stderr, "unknown family", name)
 	os.Exit(2)
